@@ -5,12 +5,37 @@ package main
 import (
 	"fmt"
 	"os"
+	"sync"
 	"go/types"
 )
 
 var sizes = types.SizesFor("gc", "amd64")
 
-func sizeof(t types.Type) int64 { return sizes.Sizeof(t) }
+var sizeCache sync.Map
+
+func sizeof(t types.Type) int64 {
+	if v, ok := sizeCache.Load(t); ok {
+		return v.(int64)
+	}
+	sz := sizes.Sizeof(t)
+	sizeCache.Store(t, sz)
+	return sz
+}
+
+func (p *Program) fieldOffLocked(st *types.Struct, i int) int64 {
+	p.offMu.Lock()
+	offs, ok := p.offCache[st]
+	if !ok {
+		fields := make([]*types.Var, st.NumFields())
+		for j := range fields {
+			fields[j] = st.Field(j)
+		}
+		offs = sizes.Offsetsof(fields)
+		p.offCache[st] = offs
+	}
+	p.offMu.Unlock()
+	return offs[i]
+}
 
 type kind int
 
